@@ -54,7 +54,8 @@ def one(ctx: Ctx, cs, pname, over, core=True, max_sets=24):
     for ci, cuts in enumerate(cutsets):
         bounds = [0] + cuts + [len(src_lines)]
         frag_ranges = [(bounds[i], bounds[i + 1]) for i in range(len(bounds) - 1)]
-        for sep_mode in ((0, 1, 2) if ci % 4 == 0 else (0, 1)):
+        shared_frags = ['\n'.join(src_lines[a:b]) + '\n' for a, b in frag_ranges]   # one list object for two calls (modes 2 then 1)
+        for sep_mode in ((0, 2, 1) if ci % 4 == 0 else (0, 1)):
             if sep_mode == 0:
                 sep = '\n'
                 frags = ['\n'.join(src_lines[a:b]) for a, b in frag_ranges]
@@ -64,11 +65,13 @@ def one(ctx: Ctx, cs, pname, over, core=True, max_sets=24):
             elif sep_mode == 2:
                 # newline separator AND fragments that end with a newline: blank lines between the fragments
                 sep = '\n'
-                frags = ['\n'.join(src_lines[a:b]) + '\n' for a, b in frag_ranges]
+                frags = shared_frags
                 kwargs = {'separator': '\n'}
             else:
                 sep = ''
-                frags = ['\n'.join(src_lines[a:b]) + '\n' for a, b in frag_ranges]
+                # the caller's own list again (when mode 2 ran before, the very object concat has already seen once)
+                frags = shared_frags
+                ctx.mon('fragment_list_objects_reused' if ci % 4 == 0 else 'fragment_list_objects_fresh')
                 kwargs = {'separator': ''}
             ctx.ev()
             ctx.mon('concat_calls')
